@@ -2181,9 +2181,20 @@ def rule_F19(prog):
                     problems.append("unequal branch reads %s (required %s and %s)" % ([k for _, k in fg], down, right))
                 else:
                     ids = {g["id"] for g, _ in fg}
+                    flets = _lets(fn)
+
+                    def reach(node, depth=0, acc=None):
+                        acc = set() if acc is None else acc
+                        for g in find_nodes(node, lambda n: n["k"] == "mcall" and n["name"] == "get"):
+                            acc.add(g["id"])
+                        if depth < 4:
+                            for pth in find_nodes(node, lambda n: n["k"] == "path" and n.get("res", {}).get("k") == "local" and
+                                                  n["res"]["id"] in flets):
+                                reach(flets[pth["res"]["id"]], depth + 1, acc)
+                        return acc
 
                     def covers(node):
-                        return ids <= {g["id"] for g in find_nodes(node, lambda n: n["k"] == "mcall" and n["name"] == "get")}
+                        return ids <= reach(node)
                     comb = [n for n in find_nodes(ifs[0]["f"], lambda n: (n["k"] == "mcall" and n["name"] == "max") or
                                                   (n["k"] == "call" and origin(n["f"]).endswith("max")) or
                                                   (n["k"] == "binary" and n["op"] in ("<", "<=", ">", ">="))) if covers(n)]
